@@ -32,6 +32,18 @@ CLAIMED["C06"] = {
     "design": "DESIGN.md section 3 C06",
 }
 
+CLAIMED["C01"] = {
+    "text": "Bounded model checking of the real Chunk.color_str/FmtStr.__str__: for every attribute dictionary of the tier's "
+            "slice of the 59049-element space (thorough: all of it) the solver enumerates the dictionary and proves, for a "
+            "text of ANY length, that an independent SGR interpreter fed str(f) draws exactly the text in exactly the "
+            "displayed attributes, meets nothing but SGR sequences and ends in the default state; a second lemma does the "
+            "same for whole strings of up to 3 runs (composition of runs), which with the first gives any number of runs.",
+    "note": "Trusted: CPython, CrossHair + z3, SegStr domain, our SGR interpreter (cross-checked with pyte on every replay). "
+            "Texts are assumed free of ESC/0x9b (as the property states). More than 3 runs only through the inductive argument.",
+    "technique": TECH + "; SegStr text of symbolic length, solver-enumerated attribute space, SGR-interpreter oracle",
+    "design": "DESIGN.md section 3 C01",
+}
+
 NOT_YET = {}
 
 ALL = ["C%02d" % i for i in range(1, 21)]
